@@ -45,10 +45,25 @@ class Sched(object):
     self.thread_errors = []
     self.p_lock = None        # pre-emption probability at lock release
     self.file_p = {}          # file-id -> pre-emption probability override
+    self.hot = {}             # (file-id, line) -> pre-emption probability override
 
   # ---- configuration -------------------------------------------------------
   def trace_file(self, path, fid):
     self.fids[path] = fid
+
+  def heat(self, pattern, p):
+    """Raise the pre-emption probability on every traced source line matching a
+    regular expression (schedule bias towards a window of interest)."""
+    import re
+    rx = re.compile(pattern)
+    for path, fid in self.fids.items():
+      try:
+        with open(path, encoding='utf-8') as f:
+          for i, line in enumerate(f):
+            if rx.search(line):
+              self.hot[(fid, i + 1)] = p
+      except IOError:
+        pass
 
   def start(self):
     if self.fids:
@@ -96,7 +111,10 @@ class Sched(object):
       if self.steps > self.STEP_CAP:
         self.finish('stepcap')
       fid = self.fids[frame.f_code.co_filename]
-      if self.ctx.ch.preempt(self.cur, fid, frame.f_lineno, self.file_p.get(fid)):
+      p = self.hot.get((fid, frame.f_lineno)) if self.hot else None
+      if p is None:
+        p = self.file_p.get(fid)
+      if self.ctx.ch.preempt(self.cur, fid, frame.f_lineno, p):
         self._preempt(fid, frame.f_lineno)
     return self._ltrace
 
